@@ -11,11 +11,13 @@ sys.path.insert(0, "lib")
 import verif
 verif.write_coqproject()
 PY
-if [ -d gen ] && [ -f gen/main.go ]; then
-  cp /repo/go.sum gen/go.sum 2>/dev/null || true
-  (cd gen && go build -o ../.build/gen . && for t in $(../.build/gen list); do ../.build/gen $t /repo ../coq/gen; done)
-  python3 -c "import sys; sys.path.insert(0,'lib'); import verif; verif.write_coqproject()"
-fi
+# translators: regenerate coq/gen/*.v from /repo
+for d in gen/cmd/*/; do
+  [ -d "$d" ] || continue
+  t=$(basename $d)
+  (cd gen && go build -o ../.build/gen-$t ./cmd/$t && ../.build/gen-$t /repo ../coq/gen) || echo "translator $t failed (checks will report it)"
+done
+python3 -c "import sys; sys.path.insert(0,'lib'); import verif; verif.write_coqproject()"
 (cd coq && timeout 3000 make -j16 >/dev/null 2>.make.err || { tail -30 .make.err; echo "coq build failed (checks will report it)"; })
 cp /repo/go.sum harness/go.sum
 (cd harness && for d in cmd/*/; do go build -tags verif -o ../.build/warm-$(basename $d) ./$d || echo "harness $d build failed (checks will report it)"; done)
